@@ -448,10 +448,16 @@ def _execute(prop, scen):
                             run.violate("I5-seeded-conditional-sample-reproduces", site, {"step": si})
                             return run
                 elif k == "cond_cdf":
-                    xs = np.array([float(ref.cond_ppf(q, dim, g)) for q in op["levels"]])
-                    got = np.asarray(api(t.conditional_cdf, xs, dim, [np.array([g])] * len(xs), random_state=op["seed"]), dtype=float)
+                    # one conditioning value per entry (the second entry uses a neighbouring one)
+                    g2 = given_value(ref, dim, max(0.05, op["given_q"] - 0.2)) if dim == 1 else g
+                    if not in_domain(ref, dim, g2)[0]:
+                        g2 = g
+                    gs = [g, g2][: len(op["levels"])]
+                    xs = np.array([float(ref.cond_ppf(q, dim, gg)) for q, gg in zip(op["levels"], gs)])
+                    got = np.asarray(api(t.conditional_cdf, xs, dim, [np.array([gg]) for gg in gs], random_state=op["seed"]), dtype=float)
                     run.event(k, [dim, op["given_q"], op["levels"]], got)
-                    want = ref.cond_cdf(xs, dim, g)
+                    want = np.array([float(ref.cond_cdf(x_, dim, gg)) for x_, gg in zip(xs, gs)])
+                    m0 = max(m0, in_domain(ref, dim, g2)[2])
                     tol = eps_dkw(100_000) + m0
                     run.count("dkw_comparisons", len(xs))
                     if not np.all(np.abs(got - want) <= tol):
